@@ -66,6 +66,16 @@ def objective (kind : Kind) (n : Nat) (A : Nat → Nat → Rat) (γ : Rat) (c : 
       - γ * (sumTo n fun i => sumTo n fun j => if c i = c j then 1 / ((n : Rat) * (n : Rat)) else 0)
   | .other => 0
 
+/-- weight of cluster `k` for node weights `x` -/
+def clusterSum (n : Nat) (x : Nat → Rat) (c : Nat → Nat) (k : Nat) : Rat := sumTo n fun i => if c i = k then x i else 0
+
+/-- the same objective with the null-model term summed per cluster (`Σ_k vol⁺(k)·vol⁻(k)`) instead of per pair of
+    nodes: `w` = total weight, `o`, `i_` = the normalised node weights of the kind, labels below `K`.
+    Equal to `objective` (`Lemmas/ModularityFast.lean`); used by the spec lines on graphs with hundreds of nodes. -/
+def objectiveFast (n : Nat) (A : Nat → Nat → Rat) (w : Rat) (o i_ : Nat → Rat) (γ : Rat) (c : Nat → Nat) (K : Nat) : Rat :=
+  (1 / w) * (sumTo n fun i => sumTo n fun j => if c i = c j then A i j else 0)
+    - γ * sumTo K fun k => clusterSum n o c k * clusterSum n i_ c k
+
 /-! ### connected components (edges = stored non-zero weight in either direction) -/
 
 def linked (A : Nat → Nat → Rat) (u v : Nat) : Bool := A u v != 0 || A v u != 0
